@@ -253,9 +253,25 @@ func checkC09(c *Ctx, r *Report) {
 		ok := false
 		for _, in := range fl.Blocks[0].Instrs {
 			if d, isD := in.(*ssa.Defer); isD {
+				// the deferred function (a closure, or a method of the package) calls
+				// the memory tier's UnbanEviction on every path
+				var target *ssa.Function
 				if mc, isMC := d.Call.Value.(*ssa.MakeClosure); isMC {
-					if len(callsInNamed(mc.Fn.(*ssa.Function), memM("UnbanEviction"))) > 0 {
-						ok = true
+					target, _ = mc.Fn.(*ssa.Function)
+				} else if sf := d.Call.StaticCallee(); sf != nil && sf.Pkg == fl.Pkg {
+					target = sf
+				}
+				if target != nil {
+					for _, ub := range callsInNamed(target, memM("UnbanEviction")) {
+						always := true
+						for _, ret := range returnsOf(target) {
+							if !(ub.Instr.Block() == ret.Block() || ub.Instr.Block().Dominates(ret.Block())) {
+								always = false
+							}
+						}
+						if always {
+							ok = true
+						}
 					}
 				}
 				break // must be the first defer
@@ -359,6 +375,29 @@ func checkC09(c *Ctx, r *Report) {
 				}
 			})
 		}
+		if !ok && len(creates) == 1 && len(copies) == 1 {
+			// the same re-check extracted into a helper of the package that reports
+			// "aborted": flushData must not reach the copy on its true side
+			for _, hc := range callsIn(fd) {
+				h := hc.Instr.Common().StaticCallee()
+				if h == nil || h.Pkg != fd.Pkg || hc.Instr.Value() == nil || !recheckHelper(h, tFl, diskM("Delete")) {
+					continue
+				}
+				if !(precedes(creates[0].Instr, hc.Instr) && precedes(hc.Instr, copies[0])) {
+					continue
+				}
+				left := true
+				es := condEdges(hc.Instr.Value(), true)
+				for _, e := range es {
+					if e.To == copies[0].Block() || reaches(e.To, copies[0].Block()) {
+						left = false
+					}
+				}
+				if left && len(es) > 0 {
+					ok = true
+				}
+			}
+		}
 		r.Check(ok, r4, fd, "re-check registration before copy", nil, "lookup under f.mu between Create and copy; abort path deletes the disk entry", "flushData copies into a disk entry without re-checking under the flusher mutex that the blob is still registered (a concurrent Delete/abort would leave a resurrected disk copy)")
 	}
 
@@ -372,17 +411,7 @@ func checkC09(c *Ctx, r *Report) {
 				return
 			}
 			n++
-			empty := guardedBy(in, eqFact(func(b *ssa.BinOp) bool {
-				if k, isK := intConst(b.Y); !isK || k != 0 {
-					return false
-				}
-				cl, isC := b.X.(*ssa.Call)
-				if !isC {
-					return false
-				}
-				bi, isB := cl.Call.Value.(*ssa.Builtin)
-				return isB && bi.Name() == "len" && isPureLoadOf(cl.Call.Args[0], tBl+".dirtyMD")
-			}, true))
+			empty := guardedBy(in, lenZeroFact(func(v ssa.Value) bool { return isPureLoadOf(v, tBl+".dirtyMD") }))
 			st := sets[in]
 			fHeld := st[lk(fm.Params[0], "mu")] >= 2
 			bHeld := false
